@@ -85,14 +85,14 @@ def plans(tier):
     """(kind, name, cfg kwargs, simulate N or None, depth)"""
     if tier == "quick":
         return [
-            ("tl", "echo", dict(nt=1, preset="echo", fuelp=3, ops=1, depth=2, words="full"), None, None),
+            ("tl", "echo", dict(nt=1, preset="echo", fuelp=3, ops=1, depth=2, words="small"), None, None),
             ("tl", "nest", dict(nt=1, preset="echo", fuelp=2, ops=2, depth=2, words="small"), None, None),
-            ("tl", "num", dict(nt=0, fuelp=4, ops=1, depth=1, words="num"), None, None),
-            ("tl", "dup", dict(nt=1, preset="echo", fuelp=3, ops=1, depth=2, words="small", dup=True), None, None),
-            ("tl", "numdup", dict(nt=0, fuelp=5, ops=1, depth=1, words="small", numdup=True), None, None),
-            ("tl", "sim", dict(nt=2, fuelt=4, fuelp=5, depth=4, ops=6, words="full", anypos=True), 24000, 90),
+            ("tl", "num", dict(nt=0, fuelp=3, ops=1, depth=1, words="num"), None, None),
+            ("tl", "dup", dict(nt=1, preset="echo", fuelp=2, ops=1, depth=2, words="small", dup=True), None, None),
+            ("tl", "numdup", dict(nt=0, fuelp=5, ops=1, depth=1, words="tiny", numdup=True), None, None),
+            ("tl", "sim", dict(nt=2, fuelt=4, fuelp=5, depth=4, ops=6, words="full", anypos=True), 16000, 90),
             ("ex", "ebfs", dict(fuel=2, ops=2, depth=4, lits="small", funcpow=True), None, None),
-            ("ex", "esim", dict(fuel=6, ops=9, depth=5, lits="full", anypos=True), 40000, 40),
+            ("ex", "esim", dict(fuel=6, ops=9, depth=5, lits="full", anypos=True), 32000, 40),
         ]
     return [
         ("tl", "echo", dict(nt=1, preset="echo", fuelp=3, ops=2, depth=2, words="small"), None, None),
